@@ -132,7 +132,7 @@ def run(ctx):
             if x["c"] == "AtMost": x["v"] = ctx.rng.randint(0, 2)
         do_case(ctx, {"not_of": x})
     for _ in range(n_models):
-        a, o, t = gen_valid(ctx.rng, ctx.quick, wide_p=0.02)
+        a, o, t = gen_valid(ctx.rng, ctx.quick, wide_p=0.02, empty_p=0.04)
         do_case(ctx, {"ast": a})
     for _ in range(n_models):
         for _ in range(20):
